@@ -214,7 +214,8 @@ def _case(draw, ctx):
                                    io_outputs=draw(st.booleans())))
         return {"kind": "writer", "spec": spec}
     mod = draw(_module(ctx))
-    ws = draw(st.one_of(st.none(), st.lists(st.integers(0, 7), min_size=5, max_size=40)))
+    wsl = st.lists(st.integers(0, 7), min_size=5, max_size=40)
+    ws = draw(st.one_of(st.none(), wsl, wsl, wsl))
     return {"kind": "ast", "mod": mod, "ws": ws}
 
 
